@@ -9,11 +9,11 @@ from ..protos import smb
 PROP = "C17"
 RULE = ("SMB1/SMB2 Negotiate and Session-Setup requests inside a NetBIOS session message with random and boundary "
         "correlation ids (PID high/low, TID, UID, MID; MessageId, AsyncId, SessionId), arbitrary request flags without the reply "
-        "bit, dialect lists of 1..12 entries with permutations, duplicates and unknown dialects, security blobs of 1..512 bytes, "
+        "bit, dialect lists of 1..12 entries with permutations, duplicates and unknown dialects, security blobs of 1..3500 bytes, "
         "over UDP and validated TCP flows (one segment, and Negotiate / Session-Setup dialogues of 2-5 requests on one connection); every response is decoded by independent NBSS/SMB1/SMB2 codecs (NBSS "
         "length, reply flag, command and ids echoed, WordCount/ByteCount, DialectIndex < offered, DialectRevision offered, "
         "security buffer offset+length == end of message); SMB1 lists with repeated dialects must select the same dialect (by name) as "
-        "without the repetitions. Negative: reply flag set, every other command value 0..255 (SMB1) "
+        "without the repetitions. Requests of up to 3.5 KB (blobs up to 3500 bytes, hundreds of dialects). Negative: SMB2 negotiate whose DialectCount (0..3) covers unsupported revisions only while supported ones follow as trailing bytes, reply flag set, every other command value 0..255 (SMB1) "
         "and sampled 16-bit commands (SMB2), SMB2 negotiate without any supported dialect, and proper prefixes, must stay "
         "unanswered. Non-trivial = every judged case; distinct = distinct (kind, ids class, dialect list / blob length, transport).")
 ASSUME = ["session-setup requests carry a non-empty security blob (extended security)",
@@ -113,6 +113,12 @@ def shard(ctx, budget_s):
             expect_silence(ctx, lab, smb.nbss(smb.smb2_header(cmd) + smb.smb2_session_setup_body(b"blob")), "smb2_other_command", tr)
         unsup = [rng.choice([0x0000, 0x0100, 0x0201, 0x0312, 0xFFFF, 0x0203, 0x0001]) for _ in range(rng.randrange(1, 6))]
         expect_silence(ctx, lab, smb.nbss(smb.smb2_header(0) + smb.smb2_negotiate_body(sorted(set(unsup)))), "smb2_no_supported_dialect", tr)
+        # DialectCount smaller than the list that follows: only the first DialectCount entries are offered.  With none of
+        # those supported (DialectCount 0 included) the supported revisions behind them are trailing bytes, not an offer
+        k = rng.choice([0, 0, 1, 2, 3])
+        lead = [rng.choice([0x0000, 0x0100, 0x0201, 0x0312, 0xFFFF, 0x0203]) for _ in range(k)]
+        trail = [rng.choice(smb.SMB2_SUPPORTED) for _ in range(rng.randrange(1, 5))]
+        expect_silence(ctx, lab, smb.nbss(smb.smb2_header(0, msgid=ids["msgid"]) + smb.smb2_negotiate_body(lead + trail, count=k)), "smb2_supported_dialect_beyond_count", tr)
         req = smb.gen_request(rng)
         cutp = rng.randrange(8, len(req["payload"]) - 1)
         # a proper prefix that stops before the security blob / dialect list is complete
